@@ -237,3 +237,66 @@ def writes_to_var(fn, did, after_decl=True):
             if d == did and kind != "decl":
                 res.append(n)
     return res
+
+
+def _is_bailout(fn, blk, depth=0):
+    """True when control entering block `blk` inevitably throws (validation bail-out):
+    a straight-line chain of blocks ending in a throw"""
+    cfg = fn.cfg
+    seen = set()
+    b = blk
+    while b is not None and b not in seen and len(seen) < 12:
+        seen.add(b)
+        bd = cfg.blocks[b]
+        for e in bd["e"]:
+            if isinstance(e, int):
+                n = fn.nodes.get(e)
+                if n is not None and n.get("k") == "CXXThrowExpr":
+                    return True
+        ss = [x for x in bd["s"] if x is not None]
+        if len(ss) != 1:
+            return False
+        b = ss[0]
+    return False
+
+
+def cond_edges_dominating(fn, node, skip_bailouts=False):
+    """list of (cond_node, truth) such that `node` executes only if cond evaluated to truth
+    (the block of node is dominated by that successor and not by the other).
+    skip_bailouts: ignore tests whose other branch only throws (argument validation)"""
+    cfg = fn.cfg
+    w = cfg.block_of(node)
+    if w is None:
+        return []
+    b = w[0]
+    out = []
+    for bid, blk in cfg.blocks.items():
+        cs = cfg.cond_succ(bid)
+        if cs is None or blk.get("termk") == "SwitchStmt":
+            continue
+        cid, t, f = cs
+        if t is None or f is None or t == f:
+            continue
+        cn = fn.nodes.get(cid)
+        if cn is None:
+            continue
+        # a successor with another predecessor does not imply the edge was taken
+        dt = cfg.dominates(t, b) and len(list(cfg.G.predecessors(t))) == 1
+        df = cfg.dominates(f, b) and len(list(cfg.G.predecessors(f))) == 1
+        if dt and not df:
+            if skip_bailouts and _is_bailout(fn, f):
+                continue
+            out.append((cn, True))
+        elif df and not dt:
+            if skip_bailouts and _is_bailout(fn, t):
+                continue
+            out.append((cn, False))
+    return out
+
+
+def is_reachable(fn, node):
+    """False when the node sits in code that is dead in this instantiation (constant branch)"""
+    w = fn.cfg.block_of(node)
+    if w is None:
+        return True
+    return w[0] in fn.cfg.reachable_blocks()
